@@ -62,6 +62,8 @@ Proof.
     unfold heap_wf. simpl. apply upd_Forall; [exact H|]. simpl. apply wf_psetitem. eapply obj_of_wf; eassumption.
   - unfold heap_wf. simpl. apply hash_fold_wf. exact H.
   - exact H.
+  - destruct (obj_of s i); exact H.
+  - destruct (obj_of s i) as [[o [p [|]]]|]; exact H.
 Qed.
 Lemma hrun_wf ops : forall s, heap_wf s -> Forall (fun x => heap_wf (fst x)) (hrun s ops).
 Proof.
@@ -96,4 +98,6 @@ Proof.
     apply upd_other. intro X. apply (Hs i k c eq_refl _ E). simpl. congruence.
   - exfalso. apply (Hh l). reflexivity.
   - reflexivity.
+  - destruct (obj_of s i); reflexivity.
+  - destruct (obj_of s i) as [[o' [p [|]]]|]; reflexivity.
 Qed.
